@@ -11,7 +11,7 @@ interpreter state is exactly "just imported the library".  The child asserts tha
 have their initial values before it starts.
 
 spec = {"classes_src": python source defining the dataclasses, "files": {name: text}, "jobs": [[op, ...], ...]}
-op   = ["construct", slot, {"dash":..,"gen":..,"nm":..}, cfgarg] | ["add", slot, class name, dest]
+op   = ["construct", slot, {"dash":..,"gen":..,"nm":..,"cr":..(optional, AUTO)}, cfgarg] | ["add", slot, class name, dest]
      | ["parse", slot, argv] | ["print_help", slot] | ["format_help", slot]
 result per job = list of per-op observations (see run_job)."""
 import contextlib
@@ -76,13 +76,28 @@ def render_ns(ns, dests):
     return out
 
 
+LAST_IN_SETUP = [False]
+
+
+def _in_setup(e):
+    """did the exception travel through ArgumentParser._preprocessing (i.e. did the SET-UP fail)?"""
+    tb = e.__traceback__
+    while tb is not None:
+        if tb.tb_frame.f_code.co_name == "_preprocessing":
+            return True
+        tb = tb.tb_next
+    return False
+
+
 def outcome(fn):
     out, err = io.StringIO(), io.StringIO()
+    LAST_IN_SETUP[0] = False
     try:
         with contextlib.redirect_stdout(out), contextlib.redirect_stderr(err):
             v = fn()
         return ["ok", v]
     except SystemExit as e:
+        LAST_IN_SETUP[0] = _in_setup(e)
         code = e.code
         if code is None:
             code = 0
@@ -90,6 +105,7 @@ def outcome(fn):
             code = 1
         return ["exit", code]
     except BaseException as e:  # noqa: BLE001
+        LAST_IN_SETUP[0] = _in_setup(e)
         return ["raise", type(e).__name__]
 
 
@@ -99,7 +115,7 @@ def registered(p):
 
 def run_job(spec, ops):
     """Runs in a process that has done nothing but import the library."""
-    from simple_parsing import ArgumentParser
+    from simple_parsing import ArgumentParser, ConflictResolution
     from simple_parsing.wrappers.field_wrapper import ArgumentGenerationMode, DashVariant, FieldWrapper, NestedMode
 
     assert FieldWrapper.add_dash_variants == DashVariant.AUTO
@@ -118,6 +134,7 @@ def run_job(spec, ops):
                 return ArgumentParser(add_option_string_dash_variants=DashVariant[cfg["dash"]],
                                       argument_generation_mode=ArgumentGenerationMode[cfg["gen"]],
                                       nested_mode=NestedMode[cfg["nm"]],
+                                      conflict_resolution=ConflictResolution[cfg.get("cr", "AUTO")],
                                       **({"add_config_path_arg": True} if cfgarg else {}))
 
             r = outcome(mk)
@@ -145,10 +162,12 @@ def run_job(spec, ops):
             argv = list(op[2])
             ds = list(dests[slot])
             r = outcome(lambda: render_ns(p.parse_args(argv), ds))
-            res.append({"r": r, "done_before": done_before, "opts": registered(p)})
+            res.append({"r": r, "done_before": done_before, "opts": registered(p), "in_setup": LAST_IN_SETUP[0],
+                        "done_after": bool(p._preprocessing_done)})
         elif kind == "print_help":
             r = outcome(lambda: p.print_help() and None)
-            res.append({"r": ["done"] if r[0] == "ok" else r})
+            res.append({"r": ["done"] if r[0] == "ok" else r, "in_setup": LAST_IN_SETUP[0],
+                        "done_after": bool(p._preprocessing_done)})
         elif kind == "format_help":
             r = outcome(lambda: p.format_help() and None)
             res.append({"r": ["done"] if r[0] == "ok" else r})
